@@ -97,6 +97,68 @@ PROPS.update({
     },
 })
 
+
+# ---- properties decided (in part) from the mutator / Display / matches contracts --------------------------------
+LID_MUT = [V('langid', r'::LanguageIdentifier::(from_parts|set_variants|clear_variants|has_variant|into_parts)$'),
+           V('langid', r'::lemma_(sorted_dedup_variants|variants_\w+)$')]
+LOC_MUT = [V('locale', r'::UnicodeExtensionList::(is_empty|remove_keyword|clear_keywords|clear_attributes|has_attribute|set_attribute|remove_attribute)$'),
+           V('locale', r'::TransformExtensionList::(is_empty|tlang|set_tlang|clear_tlang|remove_tfield|clear_tfields)$'),
+           V('locale', r'::PrivateExtensionList::(is_empty|clear_tags|has_tag|add_tag|remove_tag)$'),
+           V('locale', r'::ExtensionsMap::is_empty$'),
+           V('locale', r'::(unicode::lemma_\w+|vspec::lemma_(kv_wf_\w+|insert_multiset|map_values_multiset|texts_\w+|strict_sorted_\w+|weak_sorted_\w+|sorted_\w+|tiny_text\w*|lower_props))$')]
+LID_DISPLAY = [V('langid', r'::(Language|Script|Region|Variant|LanguageIdentifier)::fmt$'), V('langid', r'::lemma_dash_join_push$'),
+               V('langid', r'::canonicalize$'), V('langid', r'::LanguageIdentifier::lemma_wf_view$')]
+LOC_DISPLAY = [V('locale', r'::(PrivateExtensionList|UnicodeExtensionList|TransformExtensionList|ExtensionsMap|Locale)::fmt$'),
+               V('locale', r'::canonicalize$'), V('locale', r'::vspec::(lemma_kv_ser_push|lemma_sorted_keys_unique|kv_ser)$')]
+MATCH_K = [K('langid_match', 'match_language'), K('langid_match', 'match_fields_no_variants'), K('langid_match', 'match_variants_only',
+             bounded='variant lists of length <= 2 per side (the code touches the lists only through is_empty and ==)'),
+           K('langid_match', 'as_ref_is_identity'),
+           K('langid_match', 'match_langid_formula', bounded='variant lists of length <= 2 per side', tier='thorough', timeout=1800, cost='86 s')]
+ORD_K = [K('langid_leaf', h) for h in ['leaf_variant_ord_is_lex', 'leaf_language_ord_is_lex', 'leaf_script_ord_is_lex', 'leaf_region_ord_is_lex', 'leaf_subtag_eq_str']] + \
+    [K('locale_leaf', h) for h in ['tinystr8_eq_ord_is_text', 'tinystr4_eq_ord_is_text']]
+
+PROPS.update({
+    'C10': {
+        'kani': [K('langid_leaf', h) for h in LEAF_LID] + LOCALE_LEAF + ORD_K,
+        'verus': [V('bridge', BRIDGE_ALL)] + LID_MUT + LOC_MUT,
+        'explanation': 'data-structure argument, unbounded in history length and container size: every public &mut method under contract is verified once '
+                       'from an ARBITRARY state satisfying the representation invariant wf() and shown to re-establish wf() and to change the abstract view '
+                       '(sorted set / sorted multiset / ordered map) exactly as the model operation does, over the WHOLE view (other keys/elements unchanged); '
+                       'on Err the view is unchanged; getters return the projection of the view; arguments are normalised by the same leaf parsers as the parser '
+                       '(leaf contracts proved by Kani on the real code)',
+    },
+    'C11': {
+        'kani': MATCH_K,
+        'verus': [V('locale', r'::Locale::matches$'), V('langid', r'::LanguageIdentifier::lemma_wf_view$')],
+        'explanation': 'Kani proves on the real code, for ALL raw field values and all four flag pairs, that LanguageIdentifier::matches equals the '
+                       'missing-subtag-as-wildcard formula field by field, plus the stated consequences (== when both flags are false, symmetry under swapping '
+                       'operands with flags, reflexivity, monotonicity in the flags); Locale::matches is verified in Verus (verbatim body) against '
+                       '"false if either side has private tags, else the id result"',
+    },
+    'C04': {
+        'kani': [K('langid_leaf', h) for h in LEAF_LID] + LOCALE_LEAF + ORD_K,
+        'verus': [V('bridge', BRIDGE_ALL)] + LID_DISPLAY + LOC_DISPLAY + LID_PARSER + LOC_PARSER,
+        'standin': ['lid', 'locale'],
+        'explanation': 'every Display impl (verbatim body, loop invariants over &Vec / &BTreeMap) is verified to append exactly the serialisation spec of the value\'s '
+                       'view: lang[-Script][-REGION](-variant)* then -t (tlang, tfields by key) -u (attributes, keywords by key) -x (tags), nothing for an empty '
+                       'extension; the representation invariant wf() (established by the parser contracts and preserved by every mutator, C10) gives case, sortedness, '
+                       'uniqueness and absence of `true`; canonicalize is verified to return exactly that string for the value parsed from its input',
+    },
+    'C17': {
+        'kani': [K('langid_leaf', h) for h in LEAF_LID],
+        'verus': [V('langid', r'::LanguageIdentifier::(from_parts|into_parts)$'), V('langid', r'::lemma_(sorted_dedup_variants|variants_\w+)$'),
+                  V('locale', r'::Locale::into_parts$')],
+        'explanation': 'into_parts returns the fields of the view and from_parts builds the wf value whose variant set is the argument\'s (sorted, de-duplicated), '
+                       'so from_parts(into_parts(x)) == x on wf values and any order / duplication of the variants gives the same value',
+    },
+    'C12': {
+        'kani': ORD_K,
+        'verus': [V('langid', r'::LanguageIdentifier::eq$'), V('langid', r'::(Language|Script|Region|Variant)::lemma_view_injective$')],
+        'explanation': 'derived ==/cmp of the four subtag types and of TinyAsciiStr equal equality / lexicographic order of the stored text (Kani, all raw values); '
+                       'LanguageIdentifier == &str is verified (verbatim body) to be true iff the string equals the canonical serialisation of the view',
+    },
+})
+
 NOT_APPLICABLE = {
     'C16': 'compile-time macro expansion (proc_macro::TokenStream, compile success/failure) is outside any function contract; see DESIGN.md',
 }
